@@ -116,6 +116,41 @@ T.update({
           "TLC trace validation against TimerTrace.tla"),
 })
 
+U_NOTE = ("Trusted: TLC, the deterministic scheduler of harness B with pre-emption at every operation on the shared slot / dictionary / lock "
+          "(a C-level container operation is atomic), CPython.")
+T.update({
+  "C25": ("model_checking", "4 C25",
+          "Signals.tla (registry append at the grain of single dictionary operations) is model-checked for the locked protocol; real concurrent uses of a "
+          "fresh registry (append, attribute access, Event(name), Event(number), name_for_signal, is_inner_signal) under random/PCT schedules and a "
+          "systematic pre-emption-bounded exploration of all two-operation pairs are validated by TLC (one-to-one, stable, positive, no error).",
+          "TLC model checking of Signals.tla + TLC trace validation (SignalsTrace.tla) of real executions under controlled schedules"),
+  "C26": ("other", "4 C26, 7",
+          "The registry half of loads(dumps(e)) (same name; this process's number, registering if new) is decided by the TLA+ registry model over recorded "
+          "round trips with generated names and JSON payloads; the payload half is an equality of canonical JSON texts evaluated by TLC on logged fields.",
+          "TLC trace validation (RoundTripTrace.tla); payload fidelity is a logged-text equality"),
+  "C27": ("model_checking", "4 C27",
+          "TSA.tla (descriptor protocol at the grain of lock operations and shared-field accesses) is model-checked: no foreign release, no deadlock, lock "
+          "free at the end, serial final value; real threads running reads/assignments/augmented assignments under controlled schedules (random, PCT, "
+          "systematic for all two-statement pairs) are validated by TLC, which computes the set of serial outcomes itself.",
+          "TLC model checking of TSA.tla + TLC trace validation (TSATrace.tla) with serializability computed in TLA+"),
+  "C28": ("other", "4 C28, 7",
+          "A grammar of 101 statement forms (reads in expressions and all six comparisons, augmented assignments to other variables and to the attribute "
+          "for 12 operators with spacing variants, assignments, the _lock form) is executed on real objects; TLC evaluates on each recorded result that no "
+          "lock is held, nothing was raised and values equal those of plain attributes.",
+          "grammar enumeration executed on the real descriptor, verdicts by TLC (TSATrace.tla)"),
+  "C29": ("model_checking", "4 C29",
+          "Histories of new/assign/read over objects of two classes are replayed on real objects; TSATrace.tla keeps the per-object map and checks every read.",
+          "TLC trace validation against a per-instance map"),
+  "C30": ("model_checking", "4 C30",
+          "Singleton.tla is model-checked (one instance, same object for all, no deadlock); on the real SingletonDecorator all interleavings of two concurrent "
+          "first requests (and pre-emption-bounded ones of three) are enumerated for the five declared singleton classes and validated by TLC.",
+          "TLC model checking of Singleton.tla + exhaustive schedule enumeration of the real code validated by TLC"),
+  "C32": ("other", "4 C32, 7",
+          "TraceText.tla defines Norm and the elementary edits and shows by evaluation over all short texts that equal Norm coincides with 'differ only in "
+          "timestamps, blank lines, surrounding whitespace'; TLC exports the universe, each text is rendered with real trace() bodies and fed to the real stripped().",
+          "TLA+-defined equivalence + TLC-enumerated cases run through the real function"),
+})
+
 NOT_YET ="no check built yet in this round (work in progress; see DESIGN.md 4 for the planned model)"
 
 
@@ -158,6 +193,8 @@ def main():
 
 
 NOTES = {p: B_NOTE for p in ("C04", "C05", "C16", "C06", "C07", "C08", "C09", "C10", "C11", "C12", "C13", "C31")}
+NOTES.update({p: U_NOTE for p in ("C25", "C27", "C30")})
+NOTES.update({"C26": "Trusted: TLC, json of the standard library for canonical texts.", "C28": "Trusted: TLC, CPython's inspect source-line lookup.", "C29": "Trusted: TLC.", "C32": "Trusted: TLC; the renderer of harness/textdrive.py."})
 NA = {}
 
 if __name__ == "__main__":
